@@ -5,6 +5,8 @@ CONSTANTS
   Three = {}
   SOps <- SOpsEL
   Cap = 2
+  Split = FALSE
+  Prefill = FALSE
   Locked = FALSE
   Export = TRUE
 INVARIANTS Emit
